@@ -92,14 +92,10 @@ theorem rshiftV_sc (hk : PyOk s) (hP : PrimeP s) (ha : a.isSc = true) (hb : b.is
   | lc x =>
     cases b with
     | int n =>
-      have hn : 0 ≤ n := by
-        simp only [pyExclBin] at hx
-        split at hx
-        · cases hx
-        · omega
       simp only [rshiftV, rshiftLV] at h
       obtain ⟨r, s1, h1, h⟩ := bind_ok.mp h
       obtain ⟨rfl, rfl⟩ := pure_ok' h
+      have hn : 0 ≤ n := rshiftLI_ok_nonneg h1
       obtain ⟨sm, -, vr⟩ := rshiftLI_val hn hk.ign h1
       exact ⟨sm, hn, valRef_ofFB vr⟩
     | lc e =>
